@@ -268,6 +268,11 @@ func c07Roots() []c07Root {
 	for _, m := range allMethods {
 		out = append(out, c07Root{m + "/odd-ids", oddIdsRequest(m)}, c07Root{m + "/5-criteria-6-alternatives", bigRequest(m)})
 	}
+	// a criterion with a single value over all known alternatives (zero-width observed range), one that is 0 everywhere
+	for _, m := range allMethods {
+		out = append(out, c07Root{m + "/single-valued-c3", degenerateVariant(rootRequest(m, true, false), false)},
+			c07Root{m + "/single-valued-c3-and-zero-c1", degenerateVariant(rootRequest(m, false, false), true)})
+	}
 	// generated aspiration-level series (their bias listeners are wired separately in main.go)
 	out = append(out,
 		c07Root{"aspectEliminationHeuristic/idealAdditive", withMP(rootRequest("aspectEliminationHeuristic", true, false), M{"function": "idealAdditiveCoefficient", "params": M{"coefficient": 0.25, "minValue": 0.0, "maxValue": 1.0}})},
@@ -320,6 +325,33 @@ func c07Run(s *Shard) {
 	s.Bounds["alphabet_medium"] = len(biasAlphabet(1))
 	s.Bounds["alphabet_core"] = len(biasAlphabet(0))
 	s.Bounds["plans(depth x alphabet)"] = map[bool]string{true: "2 x full, 3 x core", false: "2 x full, 3 x medium, 4 x core"}[quick(s)]
+	// long requests: 8..12 biases in one request (beyond the BFS depth), every prefix checked as a transition
+	core := biasAlphabet(0)
+	long := [][]M{
+		{core[2], core[3], core[2], core[3], core[2], core[3], core[2], core[3], core[2], core[3]},
+		{core[4], core[5], core[6], core[4], core[0], core[6], core[9], core[1], core[8], core[7], core[10], core[2]},
+		{core[7], core[1], core[11], core[10], core[7], core[1], core[2], core[8], core[0], core[4]},
+	}
+	s.Bounds["long_paths"] = []int{len(long[0]), len(long[1]), len(long[2])}
+	for _, r := range c07Roots() {
+		for li, path := range long {
+			if !s.Take() {
+				continue
+			}
+			for n := 1; n <= len(path); n++ {
+				req := withBiases(r.req, path[:n])
+				c := &Case{Prop: "C07", Kind: "transition", Req: req, Params: M{"root": r.name, "long_path": li, "depth": n}}
+				s.Evals++
+				s.Count("transitions", 1)
+				s.Begin(c)
+				vs, _ := c07Transition(c, req)
+				s.Report(vs)
+				if len(vs) > 0 {
+					break
+				}
+			}
+		}
+	}
 	sampled := false
 	for _, r := range c07Roots() {
 		for _, plan := range plans {
